@@ -216,7 +216,9 @@ def main(pid="C04", rep=None, finish=True):
                         for pth, ok in (("prot", ("", "61")), ("any", ("", "20", "44", "51"))):
                             got = asm.request("a", pth, "cw")
                             steps += 1
-                            if got not in ok:
+                            if got not in ok and got != "60":
+                                rep.drifted("a client presenting a certificate with X.509 version field 3 asking for %s was answered %r (neither dropped nor the verdict of its own fingerprint, nor the no-certificate verdict)" % (PATH[pth], got))
+                            elif got not in ok:
                                 rep.violation({"formula": "ConsultedWithRealIdentity", "uninterpretable_cert": True, "got": got},
                                               "ConsultedWithRealIdentity falsified: a client presenting a certificate with X.509 version field 3 (sha256 %s) asks for %s after %s: answered %r - the verdict for a client without a certificate; the chain must see the presented certificate's fingerprint (or the connection ends unanswered)" % (
                                                   hashlib.sha256(asm.clients["cw"].der).hexdigest()[:16], PATH[pth], hist, got), None)
